@@ -109,6 +109,11 @@ def make_programs(seed, n):
                 else:
                     sites.append({"id": j, "op": op, "old": None, "obs": [e], "place": "loop"})
             src, order = program.build(sites, style="rec", tests=2)
+            if i % 2 == 0:
+                # "poison" test that runs first: generating code for the compared object raises inside the
+                # library (its repr raises); whatever state that leaves behind must not change later output
+                poison = "class BrokenRepr:\n    def __repr__(self):\n        raise RuntimeError('repr is broken')\n\n    def __eq__(self, other):\n        return type(other) is BrokenRepr\n\n    def __deepcopy__(self, memo):\n        return self\n\n\ndef test_00_poison():\n    rec(-1, lambda: BrokenRepr() == snapshot(5))\n    rec(-2, lambda: [BrokenRepr()] == snapshot([1, 2]))\n\n\n"
+                src = src.replace("def test_0():", poison + "def test_0():", 1)
             variants[vname] = src
         progs.append({"id": i, "variants": variants, "sigs": [gen.kind_sig(t) for t in trees]})
     return progs
@@ -156,7 +161,7 @@ def run_shard(args):
             logs, test_exc, exec_exc, _ = inproc.plain_run({"test_a.py": new})
             ev = logs.get("test_a.py", [])
             counters["reexec_events"] += len(ev)
-            bad = [e for e in ev if not (e[1] == "ok" and e[3] is True)]
+            bad = [e for e in ev if not (e[1] == "ok" and e[3] is True) and e[0] >= 0]
             if exec_exc or bad:
                 violations.append({"kind": "value-wrong-in-this-configuration", "detail": {"config": cfg, "program": key, "events": bad[:4], "exec": exec_exc}, "witness": {"files": files, "config": cfg}, "finding": None})
             results[key] = {"args": args_new, "asts": [ast.dump(ast.parse(a, mode="eval")) if a is not None else None for a in args_new]}
